@@ -41,6 +41,9 @@ type finiteMap struct {
 	// Lowered: function form only - the function compares strings.ToLower(parameter), i.e. the lookup is
 	// case-insensitive by construction and the keys are the lower-case spellings
 	Lowered bool
+	// Proj: map form whose element is a struct; this finite map is the projection on field number Field
+	Proj  bool
+	Field int
 }
 
 func (m *finiteMap) entry(k constant.Value) *fmEntry {
@@ -371,7 +374,46 @@ func (w *World) finiteMaps(pkg string, keyOK, elemOK func(types.Type) bool) []*f
 		switch mem := sp.Members[n].(type) {
 		case *ssa.Global:
 			mt, ok := mem.Type().(*types.Pointer).Elem().Underlying().(*types.Map)
-			if !ok || !keyOK(mt.Key()) || !elemOK(mt.Elem()) {
+			if !ok || !keyOK(mt.Key()) {
+				continue
+			}
+			if st, isStruct := mt.Elem().Underlying().(*types.Struct); isStruct && !elemOK(mt.Elem()) {
+				// one table of records: its projection on each field of the wanted type
+				entries, ok := w.mapLiteralEntries(mem)
+				if !ok {
+					continue
+				}
+				for fi := 0; fi < st.NumFields(); fi++ {
+					if !elemOK(st.Field(fi).Type()) {
+						continue
+					}
+					var proj []fmEntry
+					okAll := true
+					for _, e := range entries {
+						ld, isLd := e.Vals[0].(*ssa.UnOp)
+						if !isLd || ld.Op != token.MUL {
+							okAll = false
+							break
+						}
+						a, isAlloc := ld.X.(*ssa.Alloc)
+						if !isAlloc {
+							okAll = false
+							break
+						}
+						vs := FieldStores(a.Parent(), a)[st.Field(fi).Name()]
+						if len(vs) != 1 {
+							okAll = false
+							break
+						}
+						proj = append(proj, fmEntry{Key: e.Key, Vals: []ssa.Value{vs[0]}, Pos: e.Pos})
+					}
+					if okAll {
+						out = append(out, &finiteMap{Name: mem.Name() + "." + st.Field(fi).Name(), Pos: mem.Pos(), Global: mem, Entries: proj, Frozen: w.globalFrozen(mem), Proj: true, Field: fi})
+					}
+				}
+				continue
+			}
+			if !elemOK(mt.Elem()) {
 				continue
 			}
 			entries, ok := w.mapLiteralEntries(mem)
@@ -440,6 +482,38 @@ func (w *World) fmLookups(m *finiteMap) []fmLookup {
 							l.Val, l.OK = extractOfV(x, 0), extractOfV(x, 1)
 						} else {
 							l.Val = x
+						}
+						if m.Proj {
+							// one lookup per read of the projected field of the record found
+							rec := l.Val
+							l.Val = nil
+							n := 0
+							if rec != nil {
+								if refs := rec.Referrers(); refs != nil {
+									for _, r := range *refs {
+										if fl, isField := r.(*ssa.Field); isField && fl.Field == m.Field {
+											lf := l
+											lf.Val = fl
+											out = append(out, lf)
+											n++
+										}
+										// the record kept in a local variable that is only read field by field
+										if st, isStore := r.(*ssa.Store); isStore && st.Val == rec {
+											if a, isAlloc := st.Addr.(*ssa.Alloc); isAlloc {
+												for _, ld := range recordFieldLoads(a, st, m.Field) {
+													lf := l
+													lf.Val = ld
+													out = append(out, lf)
+													n++
+												}
+											}
+										}
+									}
+								}
+							}
+							if n > 0 {
+								continue
+							}
 						}
 						out = append(out, l)
 					}
@@ -529,4 +603,43 @@ func funcValue(v ssa.Value) *ssa.Function {
 		return f
 	}
 	return nil
+}
+
+// recordFieldLoads: local a holds the record written by its only store st and is otherwise only read field by
+// field; returns the loads of field number field.
+func recordFieldLoads(a *ssa.Alloc, st *ssa.Store, field int) []ssa.Value {
+	refs := a.Referrers()
+	if refs == nil {
+		return nil
+	}
+	var out []ssa.Value
+	for _, r := range *refs {
+		switch x := r.(type) {
+		case *ssa.Store:
+			if x != st {
+				return nil
+			}
+		case *ssa.DebugRef:
+		case *ssa.FieldAddr:
+			fr := x.Referrers()
+			if fr == nil {
+				continue
+			}
+			for _, u := range *fr {
+				ld, isLoad := u.(*ssa.UnOp)
+				if _, isDbg := u.(*ssa.DebugRef); isDbg {
+					continue
+				}
+				if !isLoad || ld.Op != token.MUL {
+					return nil
+				}
+				if x.Field == field {
+					out = append(out, ld)
+				}
+			}
+		default:
+			return nil
+		}
+	}
+	return out
 }
